@@ -52,17 +52,15 @@ Qed.
 
 Lemma sb_ack b s e b' : sb_ok b -> on_data_acked b s e = Some b' -> sb_ok b' /\ written b' = written b.
 Proof.
-  intros [HI HT] E. destruct (N.leb_spec e s) as [Hes|Hse].
-  { unfold on_data_acked in E. rewrite (proj2 (N.leb_le e s) Hes) in E. injection E as <-. split; [split; assumption|reflexivity]. }
-  destruct (SB.step_ack _ _ _ _ HI Hse E) as (A1 & A2 & _ & _ & A5 & _).
+  intros [HI HT] E.
+  destruct (SB.step_ack _ _ _ _ HI E) as (A1 & A2 & _ & _ & A5 & _).
   split; [split; [exact A1|exact (A5 HT)]|exact A2].
 Qed.
 
 Lemma sb_loss b s e b' : sb_ok b -> may_loss_data b s e = Some b' -> sb_ok b' /\ written b' = written b.
 Proof.
-  intros [HI HT] E. destruct (N.leb_spec e s) as [Hes|Hse].
-  { unfold may_loss_data in E. rewrite (proj2 (N.leb_le e s) Hes) in E. injection E as <-. split; [split; assumption|reflexivity]. }
-  destruct (SB.step_loss _ _ _ _ HI Hse E) as (A1 & A2 & _ & _ & A5 & _).
+  intros [HI HT] E.
+  destruct (SB.step_loss _ _ _ _ HI E) as (A1 & A2 & _ & _ & A5 & _).
   split; [split; [exact A1|exact (A5 HT)]|exact A2].
 Qed.
 
